@@ -147,14 +147,28 @@ pub fn run_program(program: &Program, event: Value, metadata: Value, faults: Vec
     RunResult { outcome, event: target.inner.value, metadata: target.inner.metadata, vars, log, caught }
 }
 
-/// convenience: compile `src`, run it on `event`, return the value (errors and panics as `Err`).
+thread_local! {
+    static CACHE: std::cell::RefCell<std::collections::HashMap<String, Option<std::rc::Rc<Program>>>> =
+        std::cell::RefCell::new(std::collections::HashMap::new());
+}
+
+/// compile (memoised per source text); `None` = the compiler rejected the program.
+pub fn compile_cached(src: &str) -> Option<std::rc::Rc<Program>> {
+    CACHE.with(|c| {
+        let mut c = c.borrow_mut();
+        if c.len() > 4096 {
+            c.clear();
+        }
+        c.entry(src.to_string())
+            .or_insert_with(|| vrl::compiler::compile(src, &vrl::stdlib::all()).ok().map(|r| std::rc::Rc::new(r.program)))
+            .clone()
+    })
+}
+
+/// Run `src` with `event` as the target (`.`). `Err("compile-error")` when the program is rejected,
+/// otherwise the runtime error/abort message. Panics propagate to the caller (wrap in `guarded`).
 pub fn run_vrl(src: &str, event: Value) -> Result<Value, String> {
-    let program = compile(src)?;
-    let r = run_program(&program, event, Value::Object(BTreeMap::new()), vec![], &TimeZone::default());
-    match r.outcome {
-        Outcome::Ok(v) => Ok(v),
-        Outcome::Error(e) => Err(format!("error:{e}")),
-        Outcome::Abort(m) => Err(format!("abort:{}", m.unwrap_or_default())),
-        Outcome::Panic(p) => Err(format!("panic:{p}")),
-    }
+    let program = compile_cached(src).ok_or_else(|| "compile-error".to_string())?;
+    let mut target = TargetValue { value: event, metadata: Value::Object(BTreeMap::new()), secrets: Secrets::default() };
+    Runtime::default().resolve(&mut target, &program, &TimeZone::default()).map_err(|e| e.to_string())
 }
